@@ -27,6 +27,7 @@ import Alos2.Proofs.ImageIO
 import Alos2.Proofs.Geometry
 import Alos2.Proofs.LineAddr
 import Alos2.Proofs.ReaderPixels
+import Alos2.Props.C03
 
 namespace Alos2.C01
 
@@ -115,5 +116,19 @@ theorem reader_pixel_fidelity (file : Bytes) (name : String) (rpc : Nat) (gname 
         (rows.getD i []).getD j [] =
           slice file (720 + i * L + prefixOf t + j * bpp) (720 + i * L + prefixOf t + (j + 1) * bpp) :=
   Alos2.reader_pixel_fidelity file name rpc gname g h header recs hr hrpc hn L hL hdrL hrl t ht hty m bpp dt hbpp hshape hLm
+
+/-- non-vacuity of `reader_pixel_fidelity` (and of the reader-level theorems of C02 / C06 / C11, which share its hypotheses): the
+    two-record witness image of C03 (IU2, one pixel per line, L = 194 = 192 + 1·2) opens, its records are well framed (every
+    preamble declares length 194 and type 11), the declared shape is (2, 1) and the type code is in the dtype table with 2 bytes
+    per sample — kernel-evaluated -/
+example :
+    (match readImageRecords C03.witnessImage 1, openImageFile C03.witnessImage "IMG-HH-ALOS2290760600-191011-WWDR1.5RUA" 1 with
+     | .ok (header, recs), .ok (_, g) =>
+       decide (recs.length = 2) && decide (intAt header ["sar_data_record_length"] = .ok 194) &&
+       recs.all (fun r => decide (intAt r ["preamble", "record_length"] = .ok 194) && decide (intAt r ["preamble", "record_type"] = .ok 11)) &&
+       decide (g.array.shape = (2, 1)) &&
+       decide (Gen.dtypes.find? (fun d => d.1 = g.array.typeCode) = some (g.array.typeCode, "uint16", 2)) &&
+       decide (194 = prefixOf 11 + 1 * 2)
+     | _, _ => false) = true := by decide +kernel
 
 end Alos2.C01
